@@ -11,13 +11,13 @@ L4 partial operations have their precondition (tier stored lists; private free l
 import ast
 
 from ..index import AnalysisError, is_spawn, walk_no_nested
-from ..norm import Canon, Lit, Logic, effects_of_event, path_effects, effects_along
+from ..norm import Canon, Lit, Logic, ProvCanon, effects_of_event, path_effects, effects_along
 from ..paths import Frame, bind_args, cached_paths, contains_yield
 from ..skel import outcomes
 from .common import (call_name, enclosing_loops, iteration_segments, path_must, reaching_value,
                      short, stmt_contains)
 
-FLOORS = {'C05.L1': 1, 'C05.L2': 10, 'C05.L3': 2, 'C05.L4a': 4, 'C05.L4b': 4}
+FLOORS = {'C05.L1': 1, 'C05.L2': 10, 'C05.L3': 2, 'C05.L4a': 4, 'C05.L4b': 4, 'C05.L6': 3}
 
 COUNTER = 'Scheduler.provision_ingest'
 STORED = {"HotBuffer.observations['stored']", "ColdBuffer.observations['stored']"}
@@ -52,6 +52,7 @@ def check(repo, res, tier):
     l3(repo, res, canon)
     l4a(repo, res, canon, logic)
     l4b(repo, res, canon, logic)
+    l6(repo, res, canon)
     # L5: an observation can always reach FINISHED (else the telescope never goes idle)
     from . import c08
     from .common import borrow
@@ -259,6 +260,75 @@ def l3(repo, res, canon):
         '%d path(s) append the reserved machines to available and drop the key' % both if ok3 else
         'release_batch_resources does not both return the reserved machines to the available pool and drop the '
         'reservation key (%d path(s) do both, %d only drop the key)' % (both, drops_only))
+
+
+# ---------------------------------------------------------------------- L6
+def l6(repo, res, canon):
+    """A scheduling algorithm takes a machine off its per-round free list only when it proposes
+    it: in every iteration of the task loop, removals from the free list == stores into the
+    allocation map.  (A machine consumed by a task that is then skipped -- predecessors still
+    running -- is withheld from the ready tasks behind it: with few machines they starve.)"""
+    from .c17 import returned_map_name
+    from ..paths import assigned_names
+    res.rule('C05.L6', 'per iteration of an algorithm\'s task loop: machines taken off the round\'s free list == proposals made')
+    pc = ProvCanon(repo)
+    n_loops = 0
+    for f in repo.all_functions():
+        if f.cls is None or f.name != 'run' or not f.cls.is_subclass_of('Scheduling') or f.cls.name == 'Scheduling':
+            continue
+        fr = Frame(f)
+        m = returned_map_name(f)
+        if m is None:
+            continue
+        # locals that hold a copy of one of the cluster's free lists
+        free = set()
+        for name, defs in assigned_names(f).items():
+            for d in defs:
+                if isinstance(d, ast.Assign) and isinstance(d.value, ast.Call):
+                    P = pc.p(d.value, fr)
+                    if P.startswith("Cluster._resources["):
+                        free.add(name)
+        if not free:
+            continue
+        for lp in [n for n in walk_no_nested(f.node) if isinstance(n, ast.For)]:
+            takes_here = [n for n in ast.walk(lp) if isinstance(n, ast.Call) and isinstance(n.func, ast.Attribute)
+                          and isinstance(n.func.value, ast.Name) and n.func.value.id in free
+                          and n.func.attr in ('remove', 'pop')]
+            if not takes_here or any(isinstance(x, ast.For) and x is not lp and any(
+                    t is y for t in takes_here for y in ast.walk(x)) for x in ast.walk(lp)):
+                continue
+            n_loops += 1
+            res.analysed(f, 0)
+            bad = None
+            for seg, how in iteration_segments(f, lp):
+                if how == 'raise':
+                    continue
+                takes = props = 0
+                for e in seg:
+                    if e.kind != 'stmt':
+                        continue
+                    for x in ast.walk(e.node):
+                        if isinstance(x, ast.Call) and isinstance(x.func, ast.Attribute) and isinstance(
+                                x.func.value, ast.Name) and x.func.value.id in free and x.func.attr in ('remove', 'pop'):
+                            takes += 1
+                    if isinstance(e.node, ast.Assign):
+                        for t in e.node.targets:
+                            if isinstance(t, ast.Subscript) and isinstance(t.value, ast.Name) and t.value.id == m:
+                                props += 1
+                if takes != props:
+                    bad = (seg, takes, props)
+                    break
+            what = '%s: machines taken from the free list are proposed (loop at line %d)' % (f.qual, lp.lineno)
+            if bad is None:
+                res.ok('C05.L6', f, lp, what)
+            else:
+                res.bad('C05.L6', f, lp, what,
+                        'one iteration of the task loop takes %d machine(s) off the round\'s free list but proposes %d: '
+                        'a machine consumed for a task that is then skipped is withheld from the ready tasks behind it '
+                        '(with few machines they starve and the run never ends)' % (bad[1], bad[2]),
+                        path=[repr(e) for e in bad[0] if e.kind == 'test'][:12])
+    if not n_loops:
+        raise AnalysisError('no scheduling algorithm takes machines off a free list (C05.L6 anchor moved)')
 
 
 # ---------------------------------------------------------------------- L4a
